@@ -30,29 +30,42 @@ AsCfg(k, seq) == [n \in FieldNames(k) |-> seq[FieldOf(k, n)]]
 GInit == /\ gk \in Kinds
          /\ gc = <<>> /\ gi = 1 /\ gd = 0 /\ out = "" /\ coin = "?"
 
+\* The pad field comes last: its classes are offered only when the classes chosen so far write a value of the
+\* format (PadSound), and padding the value of a field that is off its base already is the same deviation
+\* (ConfigSpaceGrammar!Dev).
+IsPad   == Fields(gk)[gi].n = "pad"
+PFmt(j) == PadFmtOf(Fields(gk)[gi].d[j])
+Eff(j)  == PFmt(j) \in AlwaysFmt(gk) \/ \E i \in 1..Len(gc) : <<PFmt(j), Fields(gk)[i].n, gc[i]>> \in Carriers(gk)
+Free(j) == \E i \in 1..Len(gc) : gc[i] # Fields(gk)[i].d[1] /\ <<PFmt(j), Fields(gk)[i].n, gc[i]>> \in Carriers(gk)
+Cost(j) == IF j = 1 THEN 0 ELSE IF IsPad /\ Free(j) THEN 0 ELSE 1
+Allowed(j) == IF j = 1 THEN TRUE ELSE gd + Cost(j) <= MaxDev /\ (IF IsPad THEN Eff(j) ELSE TRUE)
+
 Pick(j) ==
     /\ gc' = Append(gc, Fields(gk)[gi].d[j])
-    /\ gd' = IF j = 1 THEN gd ELSE gd + 1
+    /\ gd' = gd + Cost(j)
     /\ gi' = gi + 1
     /\ coin' = "?"
-    /\ out' = IF gi' > NFields(gk) THEN ToJson([kind |-> gk, cfg |-> AsCfg(gk, gc')]) ELSE ""
+    /\ out' = IF gi' > NFields(gk)
+                 THEN ToJson([kind |-> gk, cfg |-> AsCfg(gk, gc'),
+                              fmts |-> {f \in Formats : Carries(gk, AsCfg(gk, gc'), f)}])    \* what the carrier table says
+                 ELSE ""
     /\ UNCHANGED gk
 
 \* exhaustive mode: any class, within the radius
 Choose ==
     /\ ~Biased
     /\ gi <= NFields(gk)
-    /\ \E j \in 1..Len(Fields(gk)[gi].d) : (j = 1 \/ gd < MaxDev) /\ Pick(j)
+    /\ \E j \in 1..Len(Fields(gk)[gi].d) : Allowed(j) /\ Pick(j)
 
 \* random mode: coin first (keep the base / vary), then a uniformly chosen non-base class
 Coin ==
     /\ Biased /\ gi <= NFields(gk) /\ coin = "?"
     /\ \/ Pick(1)
-       \/ /\ gd < MaxDev /\ Len(Fields(gk)[gi].d) > 1
+       \/ /\ \E j \in 2..Len(Fields(gk)[gi].d) : Allowed(j)
           /\ coin' = "vary" /\ UNCHANGED <<gk, gc, gi, gd, out>>
 Vary ==
     /\ Biased /\ gi <= NFields(gk) /\ coin = "vary"
-    /\ \E j \in 2..Len(Fields(gk)[gi].d) : Pick(j)
+    /\ \E j \in 2..Len(Fields(gk)[gi].d) : Allowed(j) /\ Pick(j)
 
 GNext == Choose \/ Coin \/ Vary
 GSpec == GInit /\ [][GNext]_gvars
@@ -60,5 +73,6 @@ GSpec == GInit /\ [][GNext]_gvars
 GenSound == gi > NFields(gk) =>
                /\ InGrammar(gk, AsCfg(gk, gc))
                /\ Dev(gk, AsCfg(gk, gc)) = gd
+               /\ PadSound(gk, AsCfg(gk, gc))
                /\ gd <= MaxDev
 =============================================================================
